@@ -13,13 +13,17 @@ package main
 import (
 	"bytes"
 	"compress/zlib"
+	"encoding/json"
 	"errors"
 	"fmt"
 	"io"
 	"math"
 	"os"
+	"os/exec"
+	"path/filepath"
 	"runtime"
 	"strings"
+	"time"
 
 	"github.com/pdfcpu/pdfcpu/pkg/api"
 	"github.com/pdfcpu/pdfcpu/pkg/filter"
@@ -57,6 +61,10 @@ func guard(r *vh.Run, what string, in any, f func()) {
 }
 
 func main() {
+	if spec := os.Getenv("C09_CHILD"); spec != "" {
+		child(spec)
+		return
+	}
 	r := vh.Start("C09")
 	defer r.Finish()
 	api.DisableConfigDir()
@@ -255,8 +263,260 @@ func main() {
 		}
 	}
 
+	objStreamLimit(r)
 	bombs(r)
 	readerBomb(r)
+	structureBombs(r)
+}
+
+// objStreamLimit: K on the decode limit stored by model.ObjectStreamDictWithLimits and on the lazy full
+// decode of the object stream content (LazyObjectStreamObject.GetData) under that stored limit.
+func objStreamLimit(r *vh.Run) {
+	mx := int64(math.MaxInt64)
+	mdbs := []int64{0, 1, 100, 4096, 65536, 1 << 20, -1, math.MinInt64, mx, mx - 1}
+	for _, mdb := range mdbs {
+		for _, nf := range [][2]int{{1, 4}, {0, 4}, {3, 0}, {101, 4}, {1, 101}, {1, -1}} {
+			d := types.NewDict()
+			d["N"] = types.Integer(nf[0])
+			d["First"] = types.Integer(nf[1])
+			sd := types.NewStreamDict(d, 0, nil, nil, nil)
+			lm := model.DefaultResourceLimits()
+			lm.MaxObjectStreamCount, lm.MaxObjectStreamFirst, lm.MaxDecodeBytes = 100, 100, mdb
+			osd, err := model.ObjectStreamDictWithLimits(&sd, lm)
+			res := "err"
+			if err == nil {
+				res = "ok:" + vh.Int(osd.MaxDecodeBytes)
+				if osd.MaxDecodeBytes != mdb {
+					r.OracleFail("objstm-decode-limit-not-configured", map[string]any{"N": nf[0], "First": nf[1], "MaxDecodeBytes": mdb},
+						fmt.Sprintf("ObjectStreamDict.MaxDecodeBytes = %d, configured %d", osd.MaxDecodeBytes, mdb))
+				} else {
+					r.OracleOK()
+				}
+			}
+			r.Case("objStreamLimit", []string{vh.Int(int64(nf[0])), vh.Int(int64(nf[1])), vh.Int(100), vh.Int(100), vh.Int(mdb)}, res)
+		}
+		// full decode of a real Flate object stream of `avail` decoded bytes
+		for _, avail := range []int64{10, 99, 100, 101, 4095, 4096, 4097, 65535, 65536, 65537, 1 << 20, 1<<20 + 1, 3 << 20} {
+			if (mdb < 0 || mdb >= mx-1 || mdb == 0) && avail > 1<<20 {
+				continue
+			}
+			in := map[string]any{"fn": "LazyObjectStreamObject.GetData", "decoded_size": avail, "MaxDecodeBytes": mdb}
+			guard(r, "GetData", in, func() {
+				content := append([]byte("7 0 "), bytes.Repeat([]byte{' '}, int(avail)-4)...)
+				var z bytes.Buffer
+				zw := zlib.NewWriter(&z)
+				zw.Write(content)
+				zw.Close()
+				d := types.NewDict()
+				d["Type"] = types.Name("ObjStm")
+				d["N"] = types.Integer(1)
+				d["First"] = types.Integer(4)
+				sd := types.NewStreamDict(d, 0, nil, nil, []types.PDFFilter{{Name: filter.Flate}})
+				sd.Raw = z.Bytes()
+				lm := model.DefaultResourceLimits()
+				lm.MaxDecodeBytes = mdb
+				osd, err := model.ObjectStreamDictWithLimits(&sd, lm)
+				if err != nil {
+					r.OracleFail("objstm-rejected", in, err.Error())
+					return
+				}
+				lo := types.NewLazyObjectStreamObject(osd, 0, -1, nil).(types.LazyObjectStreamObject)
+				data, err := lo.GetData()
+				var res string
+				switch {
+				case err == nil:
+					res = "ok:" + vh.Int(int64(len(data)))
+				case errors.Is(err, filter.ErrDecodeLimitExceeded):
+					res = "limit"
+				default:
+					res = "other:" + vh.Hex([]byte(err.Error()))
+				}
+				r.Case("osdFullDecode", []string{vh.Int(1), vh.Int(4), vh.Int(1000000), vh.Int(16 << 20), vh.Int(mdb), vh.Int(avail)}, res)
+				if mdb > 0 && mdb < mx && err == nil && int64(len(data)) > mdb {
+					r.OracleFail("objstm-decoded-exceeds-limit", in, fmt.Sprintf("%d bytes decoded", len(data)))
+				} else {
+					r.OracleOK()
+				}
+			})
+		}
+	}
+}
+
+// ---- structure bombs through the real reader, each in a child process ----
+
+type childReport struct {
+	Err        string `json:"err"`
+	LimitErr   bool   `json:"limit_err"`
+	TotalAlloc uint64 `json:"total_alloc"`
+	PeakHeap   uint64 `json:"peak_heap"`
+	Panic      string `json:"panic"`
+}
+
+// child: C09_CHILD = "<file>|<MaxDecodeBytes>": read+validate+optimize the file under the limit and print a report.
+func child(spec string) {
+	api.DisableConfigDir()
+	i := strings.LastIndex(spec, "|")
+	var limit int64
+	fmt.Sscan(spec[i+1:], &limit)
+	b, err := os.ReadFile(spec[:i])
+	if err != nil {
+		fmt.Println(`{"err":"cannot read input"}`)
+		return
+	}
+	conf := model.NewDefaultConfiguration()
+	conf.Limits.MaxDecodeBytes = limit
+	var rep childReport
+	stop := make(chan struct{})
+	done := make(chan uint64)
+	go func() {
+		var peak uint64
+		var ms runtime.MemStats
+		for {
+			select {
+			case <-stop:
+				done <- peak
+				return
+			default:
+			}
+			runtime.ReadMemStats(&ms)
+			if ms.HeapAlloc > peak {
+				peak = ms.HeapAlloc
+			}
+			time.Sleep(200 * time.Microsecond)
+		}
+	}()
+	var ms0, ms1 runtime.MemStats
+	runtime.ReadMemStats(&ms0)
+	func() {
+		defer func() {
+			if p := recover(); p != nil {
+				rep.Panic = fmt.Sprint(p)
+			}
+		}()
+		_, err = api.ReadValidateAndOptimize(bytes.NewReader(b), conf)
+	}()
+	runtime.ReadMemStats(&ms1)
+	close(stop)
+	rep.PeakHeap = <-done
+	rep.TotalAlloc = ms1.TotalAlloc - ms0.TotalAlloc
+	if err != nil {
+		rep.Err = err.Error()
+		rep.LimitErr = errors.Is(err, filter.ErrDecodeLimitExceeded)
+	}
+	out, _ := json.Marshal(rep)
+	fmt.Println(string(out))
+}
+
+func flate(b []byte) []byte {
+	var z bytes.Buffer
+	zw := zlib.NewWriter(&z)
+	zw.Write(b)
+	zw.Close()
+	return z.Bytes()
+}
+
+// genStructureBomb: catalog, pages and page live in a Flate object stream (obj 1) whose decoded content is
+// padded to objPad bytes; the Flate xref stream (obj 2) is padded with xrefPad zero bytes.
+func genStructureBomb(objPad, xrefPad int) []byte {
+	o3 := "<</Type/Catalog/Pages 4 0 R>> "
+	o4 := "<</Type/Pages/Kids[5 0 R]/Count 1>> "
+	o5 := "<</Type/Page/Parent 4 0 R/MediaBox[0 0 10 10]>>"
+	prolog := fmt.Sprintf("3 0 4 %d 5 %d ", len(o3), len(o3)+len(o4))
+	content := prolog + o3 + o4 + o5
+	if objPad > len(content) {
+		content += strings.Repeat(" ", objPad-len(content))
+	}
+	zc := flate([]byte(content))
+	var w bytes.Buffer
+	w.WriteString("%PDF-1.7\n%\xe2\xe3\xcf\xd3\n")
+	off1 := w.Len()
+	fmt.Fprintf(&w, "1 0 obj\n<</Type/ObjStm/N 3/First %d/Length %d/Filter/FlateDecode>>\nstream\n", len(prolog), len(zc))
+	w.Write(zc)
+	w.WriteString("\nendstream\nendobj\n")
+	off2 := w.Len()
+	be := func(t byte, a int, b int) []byte {
+		return []byte{t, byte(a >> 24), byte(a >> 16), byte(a >> 8), byte(a), byte(b >> 8), byte(b)}
+	}
+	var data []byte
+	data = append(data, be(0, 0, 0xffff)...)
+	data = append(data, be(1, off1, 0)...)
+	data = append(data, be(1, off2, 0)...)
+	data = append(data, be(2, 1, 0)...)
+	data = append(data, be(2, 1, 1)...)
+	data = append(data, be(2, 1, 2)...)
+	data = append(data, make([]byte, xrefPad)...)
+	zx := flate(data)
+	fmt.Fprintf(&w, "2 0 obj\n<</Type/XRef/Size 6/W[1 4 2]/Root 3 0 R/Length %d/Filter/FlateDecode>>\nstream\n", len(zx))
+	w.Write(zx)
+	fmt.Fprintf(&w, "\nendstream\nendobj\nstartxref\n%d\n%%%%EOF\n", off2)
+	return w.Bytes()
+}
+
+func structureBombs(r *vh.Run) {
+	exe, err := os.Executable()
+	if err != nil {
+		r.Count("structure-bombs:no-executable")
+		return
+	}
+	type bomb struct {
+		name            string
+		objPad, xrefPad int
+	}
+	big := r.Pick(6<<20, 48<<20)
+	bombsL := []bomb{{"objstm", big, 0}, {"xrefstm", 0, big}, {"objstm", 200 << 10, 0}, {"xrefstm", 0, 200 << 10}, {"none", 0, 0}}
+	limits := []int64{16 << 10, 64 << 10, 1 << 20, 512 << 20}
+	for _, bm := range bombsL {
+		doc := genStructureBomb(bm.objPad, bm.xrefPad)
+		path := filepath.Join(r.Dir, fmt.Sprintf("bomb-%s-%d.pdf", bm.name, bm.objPad+bm.xrefPad))
+		if err := os.WriteFile(path, doc, 0o644); err != nil {
+			continue
+		}
+		decoded := int64(bm.objPad + bm.xrefPad)
+		for _, lim := range limits {
+			in := map[string]any{"bomb": bm.name, "decoded_bytes": decoded, "file_bytes": len(doc), "MaxDecodeBytes": lim, "file": path,
+				"op": "api.ReadValidateAndOptimize in a child process"}
+			cmd := exec.Command(exe)
+			cmd.Env = append(os.Environ(), fmt.Sprintf("C09_CHILD=%s|%d", path, lim), "GOMEMLIMIT=2GiB")
+			var out bytes.Buffer
+			cmd.Stdout = &out
+			done := make(chan error, 1)
+			if err := cmd.Start(); err != nil {
+				r.Count("structure-bombs:child-start-failed")
+				continue
+			}
+			go func() { done <- cmd.Wait() }()
+			var werr error
+			select {
+			case werr = <-done:
+			case <-time.After(120 * time.Second):
+				cmd.Process.Kill()
+				r.OracleFail(bm.name+"-bomb-timeout", in, "child did not finish within 120 s")
+				continue
+			}
+			var rep childReport
+			if werr != nil || json.Unmarshal(bytes.TrimSpace(out.Bytes()), &rep) != nil {
+				r.OracleFail(bm.name+"-bomb-child-died", in, fmt.Sprintf("%v: %s", werr, out.String()))
+				continue
+			}
+			in["total_alloc"], in["peak_heap"] = rep.TotalAlloc, rep.PeakHeap
+			r.Count("structure-bomb:" + bm.name)
+			switch {
+			case rep.Panic != "":
+				r.OracleFail("panic:structure-bomb", in, rep.Panic)
+			case decoded > lim && rep.Err == "":
+				r.OracleFail(bm.name+"-bomb-not-rejected", in, fmt.Sprintf("read succeeded although the %s stream decodes to %d bytes under MaxDecodeBytes = %d", bm.name, decoded, lim))
+			case decoded > lim && !rep.LimitErr:
+				r.OracleFail(bm.name+"-bomb-wrong-error", in, rep.Err)
+			case decoded > 8*lim && int64(rep.TotalAlloc) >= decoded:
+				r.OracleFail(bm.name+"-bomb-allocates", in, fmt.Sprintf("rejected, but %d bytes were allocated (bomb %d, limit %d)", rep.TotalAlloc, decoded, lim))
+			case decoded <= lim/2 && rep.Err != "":
+				r.OracleFail(bm.name+"-rejected-below-limit", in, rep.Err)
+			default:
+				r.OracleOK()
+			}
+		}
+		os.Remove(path)
+	}
 }
 
 func tooBig(ix []int) bool {
